@@ -169,11 +169,57 @@ func runC15(r *Run) {
 		maxLen = 10
 	}
 	rr := r.Rng
-	for h := 0; h < nhist; h++ {
+	// scripted histories first: one file edited three times with every pattern of modification times over {none, early,
+	// late} - forwards, backwards, equal to the one the cache remembers, back to it after a detour - and a render
+	// after every edit, for each entry point and each cached file
+	type c15Script struct {
+		engine      int
+		layout, def bool
+		ops         []c15Op
+	}
+	var scripts []c15Script
+	for _, sc := range []c15Script{{engine: 0}, {engine: 1}, {engine: 1, layout: true}, {engine: 1, def: true}} {
+		nf := 2
+		if sc.layout || sc.def {
+			nf = 3
+		}
+		entry := map[bool]string{true: "TplLayout", false: map[int]string{0: "VueRender", 1: "TplPlain"}[sc.engine]}[sc.layout]
+		if sc.def {
+			entry = "TplDefault"
+		}
+		for f := 0; f < nf; f++ {
+			for pat := 0; pat < 27; pat++ {
+				ts := []int{[]int{0, 5, 10}[pat%3], []int{0, 5, 10}[pat/3%3], []int{0, 5, 10}[pat/9]}
+				if !r.Thorough() && (ts[0] == 0 || pat%2 == 1 && f == 1) {
+					continue // quick tier: the first version carries a time, every other pattern for the component
+				}
+				var ops []c15Op
+				id := 0
+				for g := 0; g < nf; g++ {
+					if g != f {
+						id++
+						ops = append(ops, c15Op{kind: "edit", f: g, cid: id, valid: true, t: 7})
+					}
+				}
+				for _, t := range ts {
+					id++
+					ops = append(ops, c15Op{kind: "edit", f: f, cid: id, valid: true, t: t}, c15Op{kind: "render", entry: entry})
+				}
+				x := sc
+				x.ops = ops
+				scripts = append(scripts, x)
+			}
+		}
+	}
+	r.extra["scripted_mtime_histories"] = len(scripts)
+	for h := 0; h < nhist+len(scripts); h++ {
 		engine := rr.Intn(2) // 0 = Vue, 1 = Template
 		layoutScenario := engine == 1 && rr.Bool()
 		// the page names no layout and layouts/base.vuego comes and goes: the default layout applies exactly while it exists
 		defaultScenario := engine == 1 && !layoutScenario && rr.Bool()
+		if h < len(scripts) {
+			engine, layoutScenario, defaultScenario = scripts[h].engine, scripts[h].layout, scripts[h].def
+		}
 		guardedHist := rr.Intn(10) < 7
 		cfs := &countFS{m: fstest.MapFS{}, reads: map[string]int{}}
 		vue := vuego.NewVue(cfs)
@@ -247,6 +293,9 @@ func runC15(r *Run) {
 			lastEntry = "TplDefault"
 		}
 		ops = append(ops, c15Op{kind: "render", entry: lastEntry})
+		if h < len(scripts) {
+			ops = scripts[h].ops
+		}
 		// run
 		var obs []Obs
 		remembered := map[int]int{} // mtime the cache may remember per file (over-approximation: every mtime ever rendered with)
